@@ -303,6 +303,10 @@ class World:
 # ---------------------------------------------------------------------------------------------- Diffie-Hellman algebra
 
 
+class ScalarOutOfRange(ValueError):
+    """cryptography refuses an EC private scalar outside [1, n-1] with ValueError (probability ~2^-128 for a random draw)"""
+
+
 def neg_(a):
     from vlib.api import neg
 
@@ -393,9 +397,9 @@ class Algebra:
         alg = self
         name = curve.name
         if truth(private_value <= 0):
-            raise ValueError("private_value must be a positive integer.")
+            raise ScalarOutOfRange("private_value must be a positive integer.")
         if truth(private_value >= self.CURVE_ORDER[name]):
-            raise ValueError("private_value must be less than the curve order")  # cryptography raises ValueError for scalars outside [1, n-1]
+            raise ScalarOutOfRange("private_value must be less than the curve order")
 
         class Priv:
             key_size = self.CURVE_BITS[name]
